@@ -337,7 +337,8 @@ def gen_datetime(ctx, rng, kind):
         text = render(v)
         cells.append(text)
         flags.append(True)
-        if kind == "excel" and rng.random() < 0.5:
+        if rng.random() < (0.5 if kind == "excel" else 0.25):
+            # Excel renders date-only cells with this suffix; only there it is part of the accepted renderings
             cells.append(text + " 00:00:00")
             flags.append(True)
         # field-level mutations
